@@ -186,19 +186,29 @@ def main(argv=None):
         return 2
 
     known, fixed = load_findings(pid)
-    viols, knownhits = [], []
+    viols, knownhits, unstable = [], [], []
     for key, v in sorted(total.violations.items()):
         # determinism guard: re-execute the counterexample twice from scratch
         a1 = sorted(mod.replay(tojob(v["job"]), v["choices"]))
         a2 = sorted(mod.replay(tojob(v["job"]), v["choices"]))
         if [k for k, _ in a1] != [k for k, _ in a2] or key not in [k for k, _ in a1]:
-            print("BROKEN(nondeterminism): counterexample for %s does not replay identically" % key)
-            print("  run1=%r\n  run2=%r" % (a1[:3], a2[:3]))
-            return 2
+            unstable.append((key, a1, a2))
+            continue
         if key in known:
             knownhits.append(v)
         else:
             viols.append(v)
+    if unstable and not viols:
+        # nothing that was reported can be reproduced from scratch: the harness (or hidden state it does not own) is at fault
+        for key, a1, a2 in unstable[:3]:
+            print("BROKEN(nondeterminism): counterexample for %s does not replay identically" % key)
+            print("  run1=%r\n  run2=%r" % (a1[:3], a2[:3]))
+        return 2
+    for key, a1, a2 in unstable:
+        # seen during the exploration but not reproduced from a fresh start: the outcome of that case depended on what the
+        # process had executed before (state kept by the code under test across calls). Not reported as a violation; the
+        # reproducible violations below stand on their own.
+        print("NOTE: %s was observed during the exploration but does not replay from a fresh start (depends on earlier calls)" % key)
     for v in knownhits:
         print("KNOWN-FINDING: %s  [seen in %d executions]" % (known[v["key"]], v["count"]))
     for v in viols:
